@@ -31,6 +31,9 @@ def pytest_configure(config):
     elif prop in ("C01", "C02", "C03"):
         from pv import rf
         rf.arm(ctx)
+    else:
+        from pv import contracts_more
+        contracts_more.arm(ctx, prop)
 
 
 def pytest_runtest_setup(item):
